@@ -64,6 +64,7 @@ func checkOrder(c OrderCase) error {
 		return vt.Violationf("C15:setup", "world: %v", err)
 	}
 	defer closeWorld()
+	var slowSub *slowSubscriber
 	if c.SlowRegs > 0 {
 		slow, err := newSlowSubscriber(w.env.Addr, c.SlowRegs)
 		if err != nil {
@@ -72,6 +73,7 @@ func checkOrder(c OrderCase) error {
 		defer slow.close()
 		slow.throttle(time.Duration(c.ThrottleUS) * time.Microsecond)
 		defer slow.throttle(0)
+		slowSub = slow
 	}
 	var observers []*observer
 	for i := 0; i < c.Observers; i++ {
@@ -102,7 +104,7 @@ func checkOrder(c OrderCase) error {
 			}
 		}()
 	}
-	var sniped, blind int32
+	var sniped, blind, gaveUp int32
 	var setupErr atomic.Value
 	for i := 0; i < c.Snipers; i++ {
 		raw, err := netkit.Dial(w.env.Addr)
@@ -133,8 +135,16 @@ func checkOrder(c OrderCase) error {
 						}
 					}
 				}
-				f, ok := raw.CallWait(1, 1, 101, nil, bound)
-				if !ok || f.Type != netkit.Reply {
+				f, ok := raw.CallWait(1, 1, 101, nil, 3*bound)
+				if !ok {
+					// no answer yet: the directory's actor is busy writing to the
+					// throttled subscriber (the harness's own brake, which a loaded
+					// machine makes much slower); this sniper leaves, the local path
+					// and the observers are judged as before
+					atomic.AddInt32(&gaveUp, 1)
+					return
+				}
+				if f.Type != netkit.Reply {
 					setupErr.Store(fmt.Sprintf("services() failed: %v", f))
 					return
 				}
@@ -178,7 +188,7 @@ func checkOrder(c OrderCase) error {
 	if e := setupErr.Load(); e != nil {
 		return vt.Violationf("C15:order:sniper", "%v", e)
 	}
-	// (the slow subscriber keeps reading at its pace until the end of the case)
+	// (the slow subscriber keeps reading at its pace until the sweep is over)
 	// sweep: everything left is unregistered from one connection
 	sweep, err := netkit.Dial(w.env.Addr)
 	if err != nil || !sweep.Authenticate("u", "t", bound) {
@@ -193,6 +203,12 @@ func checkOrder(c OrderCase) error {
 				}
 			}
 		}
+	}
+	// everything has been registered and unregistered: the brake is released
+	// (what is still to be emitted is emitted at full speed) before the harness
+	// starts to wait for the observers' events
+	if slowSub != nil {
+		slowSub.throttle(0)
 	}
 	// every observer: per id, exactly added then removed
 	for oi, o := range observers {
@@ -247,6 +263,9 @@ func checkOrder(c OrderCase) error {
 	key, _ := json.Marshal(c)
 	vt.Case(nontrivial, "order"+string(key), "mode=event-order", fmt.Sprintf("observers=%d", c.Observers), fmt.Sprintf("spinners=%d", c.Spinners), fmt.Sprintf("slow-subscriber-registrations=%d", c.SlowRegs))
 	vt.LabelN("foreign-unregistrations", int64(atomic.LoadInt32(&sniped)))
+	if n := atomic.LoadInt32(&gaveUp); n > 0 {
+		vt.LabelN("snipers-which-left-unanswered(not-judged)", int64(n))
+	}
 	vt.LabelN("foreign-unregistrations-of-identifiers-not-listed", int64(atomic.LoadInt32(&blind)))
 	if nontrivial {
 		vt.Sample("event-order", c)
